@@ -1,9 +1,12 @@
 package genwl
 
 import (
+	"google.golang.org/protobuf/types/dynamicpb"
 	"reflect"
+	"sort"
 	"strconv"
 	"strings"
+	"verifharness/bridge"
 
 	"google.golang.org/protobuf/proto"
 	"google.golang.org/protobuf/reflect/protoreflect"
@@ -166,4 +169,37 @@ func pokeNilElems(pv reflect.Value, md protoreflect.MessageDescriptor, depth int
 		}
 	}
 	return n
+}
+
+// extInUnknown switches build to the representation a message has after it was decoded by code that did not know its
+// extensions: the (top-level) extension fields of the value are not set through the API but sit, encoded, in the
+// unknown fields. extInUnknownPoked counts the builds in which that changed something.
+var (
+	extInUnknown      bool
+	extInUnknownPoked int
+)
+
+// splitExtensions returns a copy of d without its top-level extension fields, and their reference encoding.
+func splitExtensions(d *dynamicpb.Message) (*dynamicpb.Message, []byte) {
+	rest := cloneDyn(d)
+	var raw []byte
+	var exts []protoreflect.FieldDescriptor
+	d.ProtoReflect().Range(func(fd protoreflect.FieldDescriptor, v protoreflect.Value) bool {
+		if fd.IsExtension() {
+			exts = append(exts, fd)
+		}
+		return true
+	})
+	sort.Slice(exts, func(i, j int) bool { return exts[i].Number() < exts[j].Number() })
+	for _, fd := range exts {
+		one := dynamicpb.NewMessage(d.Descriptor())
+		one.Set(fd, d.Get(fd))
+		b, err := bridge.MarshalRef(one)
+		if err != nil {
+			return d, nil
+		}
+		raw = append(raw, b...)
+		rest.Clear(fd)
+	}
+	return rest, raw
 }
